@@ -115,6 +115,8 @@ def k7scen (t : Tokens) : String :=
   | "rread-keeps-its-data-while-waiting-to-be-written" => "clean=1"
   | "simultaneous-first-walks-share-one-path-node" => "overlap=0"
   | "undecodable-frame-leaves-no-tag-behind" => "rlerror=1 flush=1 reuse=1 stopped=1"
+  | "self-flush-leaves-no-tag-behind" => "self=1 flush=1 reuse=1 stopped=1"
+  | "rename-in-one-directory-through-two-fids" => "renamed=1 alive=1"
   | "moved-fid-and-fresh-fid-share-the-path-lock" => "formed=1 overlap=0"
   | _ => "?"
 
